@@ -444,17 +444,23 @@ func (state *state) Expire() error {
 	now := time.Now()
 	cutoff := now.Add(-time.Hour * 24 * 7)
 
-	modified := false
+	removed := make(map[string]*Stateful)
 	for k, t := range state.tokens {
 		if t.Expires != nil && t.Expires.Before(cutoff) {
+			removed[k] = t
 			delete(state.tokens, k)
-			modified = true
 		}
 	}
 
-	if modified {
+	if len(removed) > 0 {
 		err := state.rewrite()
 		if err != nil {
+			// roll back, as Update and Delete do
+			if state.tokens != nil {
+				for k, t := range removed {
+					state.tokens[k] = t
+				}
+			}
 			return err
 		}
 	}
